@@ -1,4 +1,208 @@
+(* Properties/C16.v — C16: "Results depend only on width, signedness and value - never on the digit
+   type"; extension commutes with value-level operations whose exact result is representable in
+   the narrower type; the associated constants and the aliases denote what their names advertise.
+   The digit-independence and extension statements are corollaries of the Model = Spec theorems
+   of C01, C02, C05, C07, C08 (every spec mentions only BITS and the operand VALUES); the
+   constant / alias statements are about the tables REGENERATED FROM THE SOURCE on every run
+   (Generated/Config.v, by tools/rs2v_config.py) and about the constants' defining expressions
+   transcribed in Model/Consts.v. *)
 From Bnum Require Import Base Prim.
-Theorem C16_placeholder : forall w n ds, 0 <= w -> wf w n ds -> 0 <= uval w ds < Mod w n.
-Proof. exact uval_bounds. Qed.
-Print Assumptions C16_placeholder.
+From Bnum.Model Require Import Digit Core Shift AddSub Mul Div Bits Pow Consts.
+From Bnum.Generated Require Import Config.
+From Bnum.Proofs Require Import AddSubLemmas Consts DigitIndep.
+From Coq Require Import String.
+
+(* ---- 1. digit-type independence: equal width, equal values => equal results and flags ---- *)
+
+Theorem C16_U_add_digit_independent w1 w2 n1 n2 a1 b1 a2 b2 :
+  0 < w1 -> 0 < w2 -> bits w1 n1 = bits w2 n2 ->
+  wf w1 n1 a1 -> wf w1 n1 b1 -> wf w2 n2 a2 -> wf w2 n2 b2 ->
+  uval w1 a1 = uval w2 a2 -> uval w1 b1 = uval w2 b2 ->
+  uval w1 (fst (U_overflowing_add w1 a1 b1)) = uval w2 (fst (U_overflowing_add w2 a2 b2)) /\
+  snd (U_overflowing_add w1 a1 b1) = snd (U_overflowing_add w2 a2 b2).
+Proof. intros; eapply (U_add_indep w1 w2 n1 n2); eassumption. Qed.
+Print Assumptions C16_U_add_digit_independent.
+
+Theorem C16_U_sub_digit_independent w1 w2 n1 n2 a1 b1 a2 b2 :
+  0 < w1 -> 0 < w2 -> bits w1 n1 = bits w2 n2 ->
+  wf w1 n1 a1 -> wf w1 n1 b1 -> wf w2 n2 a2 -> wf w2 n2 b2 ->
+  uval w1 a1 = uval w2 a2 -> uval w1 b1 = uval w2 b2 ->
+  uval w1 (fst (U_overflowing_sub w1 a1 b1)) = uval w2 (fst (U_overflowing_sub w2 a2 b2)) /\
+  snd (U_overflowing_sub w1 a1 b1) = snd (U_overflowing_sub w2 a2 b2).
+Proof. intros; eapply (U_sub_indep w1 w2 n1 n2); eassumption. Qed.
+Print Assumptions C16_U_sub_digit_independent.
+
+Theorem C16_U_mul_digit_independent w1 w2 n1 n2 a1 b1 a2 b2 :
+  0 < w1 -> 0 < w2 -> bits w1 n1 = bits w2 n2 ->
+  wf w1 n1 a1 -> wf w1 n1 b1 -> wf w2 n2 a2 -> wf w2 n2 b2 ->
+  uval w1 a1 = uval w2 a2 -> uval w1 b1 = uval w2 b2 ->
+  uval w1 (fst (U_overflowing_mul w1 a1 b1)) = uval w2 (fst (U_overflowing_mul w2 a2 b2)) /\
+  snd (U_overflowing_mul w1 a1 b1) = snd (U_overflowing_mul w2 a2 b2).
+Proof. intros; eapply (U_mul_indep w1 w2 n1 n2); eassumption. Qed.
+Print Assumptions C16_U_mul_digit_independent.
+
+Theorem C16_U_cmp_digit_independent w1 w2 n1 n2 a1 b1 a2 b2 :
+  0 < w1 -> 0 < w2 -> bits w1 n1 = bits w2 n2 ->
+  wf w1 n1 a1 -> wf w1 n1 b1 -> wf w2 n2 a2 -> wf w2 n2 b2 ->
+  uval w1 a1 = uval w2 a2 -> uval w1 b1 = uval w2 b2 -> ucmp a1 b1 = ucmp a2 b2.
+Proof. intros; eapply (U_cmp_indep w1 w2 n1 n2); eassumption. Qed.
+Print Assumptions C16_U_cmp_digit_independent.
+
+Theorem C16_shl_digit_independent w1 w2 n1 n2 a1 b1 a2 b2 :
+  0 < w1 -> 0 < w2 -> bits w1 n1 = bits w2 n2 ->
+  wf w1 n1 a1 -> wf w1 n1 b1 -> wf w2 n2 a2 -> wf w2 n2 b2 ->
+  forall s, 0 <= s < bits w1 n1 -> uval w1 a1 = uval w2 a2 ->
+  uval w1 (shl_internal w1 a1 s) = uval w2 (shl_internal w2 a2 s).
+Proof. intros; eapply (U_shl_indep w1 w2 n1 n2); eassumption. Qed.
+Print Assumptions C16_shl_digit_independent.
+
+Theorem C16_shr_digit_independent w1 w2 n1 n2 a1 b1 a2 b2 :
+  0 < w1 -> 0 < w2 -> bits w1 n1 = bits w2 n2 ->
+  wf w1 n1 a1 -> wf w1 n1 b1 -> wf w2 n2 a2 -> wf w2 n2 b2 ->
+  forall s, 0 <= s < bits w1 n1 -> uval w1 a1 = uval w2 a2 ->
+  uval w1 (shr_pad_internal w1 false a1 s) = uval w2 (shr_pad_internal w2 false a2 s).
+Proof. intros; eapply (U_shr_indep w1 w2 n1 n2); eassumption. Qed.
+Print Assumptions C16_shr_digit_independent.
+
+Theorem C16_U_pow_digit_independent w1 w2 n1 n2 a1 b1 a2 b2 :
+  0 < w1 -> 0 < w2 -> bits w1 n1 = bits w2 n2 ->
+  wf w1 n1 a1 -> wf w1 n1 b1 -> wf w2 n2 a2 -> wf w2 n2 b2 ->
+  forall e, (0 < n1)%nat -> (0 < n2)%nat -> 0 <= e -> uval w1 a1 = uval w2 a2 ->
+  uval w1 (fst (U_overflowing_pow w1 a1 e)) = uval w2 (fst (U_overflowing_pow w2 a2 e)) /\
+  snd (U_overflowing_pow w1 a1 e) = snd (U_overflowing_pow w2 a2 e).
+Proof. intros; eapply (U_pow_indep w1 w2 n1 n2); eassumption. Qed.
+Print Assumptions C16_U_pow_digit_independent.
+
+Theorem C16_I_add_digit_independent w1 w2 n1 n2 a1 b1 a2 b2 :
+  0 < w1 -> 0 < w2 -> bits w1 n1 = bits w2 n2 ->
+  wf w1 n1 a1 -> wf w1 n1 b1 -> wf w2 n2 a2 -> wf w2 n2 b2 -> (0 < n1)%nat -> (0 < n2)%nat ->
+  sval w1 a1 = sval w2 a2 -> sval w1 b1 = sval w2 b2 ->
+  sval w1 (fst (I_overflowing_add w1 a1 b1)) = sval w2 (fst (I_overflowing_add w2 a2 b2)) /\
+  snd (I_overflowing_add w1 a1 b1) = snd (I_overflowing_add w2 a2 b2).
+Proof. intros; eapply (I_add_indep w1 w2 n1 n2); eassumption. Qed.
+Print Assumptions C16_I_add_digit_independent.
+
+Theorem C16_I_mul_digit_independent w1 w2 n1 n2 a1 b1 a2 b2 :
+  0 < w1 -> 0 < w2 -> bits w1 n1 = bits w2 n2 ->
+  wf w1 n1 a1 -> wf w1 n1 b1 -> wf w2 n2 a2 -> wf w2 n2 b2 -> (0 < n1)%nat -> (0 < n2)%nat ->
+  sval w1 a1 = sval w2 a2 -> sval w1 b1 = sval w2 b2 ->
+  sval w1 (fst (I_overflowing_mul w1 a1 b1)) = sval w2 (fst (I_overflowing_mul w2 a2 b2)) /\
+  snd (I_overflowing_mul w1 a1 b1) = snd (I_overflowing_mul w2 a2 b2).
+Proof. intros; eapply (I_mul_indep w1 w2 n1 n2); eassumption. Qed.
+Print Assumptions C16_I_mul_digit_independent.
+
+Theorem C16_I_cmp_digit_independent w1 w2 n1 n2 a1 b1 a2 b2 :
+  0 < w1 -> 0 < w2 -> bits w1 n1 = bits w2 n2 ->
+  wf w1 n1 a1 -> wf w1 n1 b1 -> wf w2 n2 a2 -> wf w2 n2 b2 -> (0 < n1)%nat -> (0 < n2)%nat ->
+  sval w1 a1 = sval w2 a2 -> sval w1 b1 = sval w2 b2 -> icmp w1 a1 b1 = icmp w2 a2 b2.
+Proof. intros; eapply (I_cmp_indep w1 w2 n1 n2); eassumption. Qed.
+Print Assumptions C16_I_cmp_digit_independent.
+
+(* ---- 2. extension into a wider type commutes when the exact result fits the narrow type ---- *)
+
+Theorem C16_U_add_extension w1 w2 n1 n2 a1 b1 a2 b2 :
+  0 < w1 -> 0 < w2 -> 0 <= bits w1 n1 <= bits w2 n2 ->
+  wf w1 n1 a1 -> wf w1 n1 b1 -> wf w2 n2 a2 -> wf w2 n2 b2 ->
+  uval w1 a1 = uval w2 a2 -> uval w1 b1 = uval w2 b2 ->
+  uval w1 a1 + uval w1 b1 < Mod w1 n1 ->
+  U_checked_add w1 a1 b1 <> None /\ U_checked_add w2 a2 b2 <> None /\
+  uval w1 (fst (U_overflowing_add w1 a1 b1)) = uval w1 a1 + uval w1 b1 /\
+  uval w2 (fst (U_overflowing_add w2 a2 b2)) = uval w1 a1 + uval w1 b1.
+Proof. intros; eapply (U_add_ext w1 w2 n1 n2); eassumption. Qed.
+Print Assumptions C16_U_add_extension.
+
+Theorem C16_U_sub_extension w1 w2 n1 n2 a1 b1 a2 b2 :
+  0 < w1 -> 0 < w2 -> 0 <= bits w1 n1 <= bits w2 n2 ->
+  wf w1 n1 a1 -> wf w1 n1 b1 -> wf w2 n2 a2 -> wf w2 n2 b2 ->
+  uval w1 a1 = uval w2 a2 -> uval w1 b1 = uval w2 b2 -> uval w1 b1 <= uval w1 a1 ->
+  uval w1 (fst (U_overflowing_sub w1 a1 b1)) = uval w1 a1 - uval w1 b1 /\
+  uval w2 (fst (U_overflowing_sub w2 a2 b2)) = uval w1 a1 - uval w1 b1 /\
+  snd (U_overflowing_sub w1 a1 b1) = false /\ snd (U_overflowing_sub w2 a2 b2) = false.
+Proof. intros; eapply (U_sub_ext w1 w2 n1 n2); eassumption. Qed.
+Print Assumptions C16_U_sub_extension.
+
+Theorem C16_U_mul_extension w1 w2 n1 n2 a1 b1 a2 b2 :
+  0 < w1 -> 0 < w2 -> 0 <= bits w1 n1 <= bits w2 n2 ->
+  wf w1 n1 a1 -> wf w1 n1 b1 -> wf w2 n2 a2 -> wf w2 n2 b2 ->
+  uval w1 a1 = uval w2 a2 -> uval w1 b1 = uval w2 b2 -> uval w1 a1 * uval w1 b1 < Mod w1 n1 ->
+  uval w1 (fst (U_overflowing_mul w1 a1 b1)) = uval w1 a1 * uval w1 b1 /\
+  uval w2 (fst (U_overflowing_mul w2 a2 b2)) = uval w1 a1 * uval w1 b1 /\
+  snd (U_overflowing_mul w1 a1 b1) = false /\ snd (U_overflowing_mul w2 a2 b2) = false.
+Proof. intros; eapply (U_mul_ext w1 w2 n1 n2); eassumption. Qed.
+Print Assumptions C16_U_mul_extension.
+
+Theorem C16_cmp_extension w1 w2 n1 n2 a1 b1 a2 b2 :
+  0 < w1 -> 0 < w2 -> 0 <= bits w1 n1 <= bits w2 n2 ->
+  wf w1 n1 a1 -> wf w1 n1 b1 -> wf w2 n2 a2 -> wf w2 n2 b2 ->
+  (uval w1 a1 = uval w2 a2 -> uval w1 b1 = uval w2 b2 -> ucmp a1 b1 = ucmp a2 b2) /\
+  ((0 < n1)%nat -> (0 < n2)%nat -> sval w1 a1 = sval w2 a2 -> sval w1 b1 = sval w2 b2 ->
+   icmp w1 a1 b1 = icmp w2 a2 b2).
+Proof.
+  intros; split; intros; [eapply (U_cmp_ext w1 w2 n1 n2) | eapply (I_cmp_ext w1 w2 n1 n2)]; eassumption.
+Qed.
+Print Assumptions C16_cmp_extension.
+
+Theorem C16_I_add_extension w1 w2 n1 n2 a1 b1 a2 b2 :
+  0 < w1 -> 0 < w2 -> 0 <= bits w1 n1 <= bits w2 n2 ->
+  wf w1 n1 a1 -> wf w1 n1 b1 -> wf w2 n2 a2 -> wf w2 n2 b2 -> (0 < n1)%nat -> (0 < n2)%nat ->
+  sval w1 a1 = sval w2 a2 -> sval w1 b1 = sval w2 b2 ->
+  inS (Mod w1 n1) (sval w1 a1 + sval w1 b1) = true ->
+  sval w1 (fst (I_overflowing_add w1 a1 b1)) = sval w1 a1 + sval w1 b1 /\
+  sval w2 (fst (I_overflowing_add w2 a2 b2)) = sval w1 a1 + sval w1 b1 /\
+  snd (I_overflowing_add w1 a1 b1) = false /\ snd (I_overflowing_add w2 a2 b2) = false.
+Proof. intros; eapply (I_add_ext w1 w2 n1 n2); eassumption. Qed.
+Print Assumptions C16_I_add_extension.
+
+(* ---- 3. constants and aliases ---- *)
+
+(* the pos_const!/neg_const! tables regenerated from the source bind every advertised name to its
+   numeral, list exactly ONE..TEN / TWO..TEN / NEG_ONE..NEG_TEN, and every defining expression
+   (MIN, MAX, BITS, BYTES, ZERO, ONE, from_digit, MAX - (k-1)) still has the transcribed shape *)
+Theorem C16_constant_tables : tables_ok = true.
+Proof. exact tables_ok_true. Qed.
+Print Assumptions C16_constant_tables.
+
+Theorem C16_pos_const_value w k num : 0 < w -> 0 <= num < B w ->
+  wf w (S k) (U_pos_const (S k) num) /\ uval w (U_pos_const (S k) num) = num.
+Proof. exact (U_pos_const_ok w k num). Qed.
+Print Assumptions C16_pos_const_value.
+
+Theorem C16_neg_const_value w k num : 0 < w -> 1 <= num <= B w / 2 ->
+  wf w (S k) (I_neg_const w (S k) num) /\ sval w (I_neg_const w (S k) num) = - num.
+Proof. exact (I_neg_const_ok w k num). Qed.
+Print Assumptions C16_neg_const_value.
+
+Theorem C16_MAX_MIN_values w k : 0 < w ->
+  uval w (UMAX w (S k)) = Mod w (S k) - 1 /\ uval w (ZERO (S k)) = 0 /\
+  sval w (IMIN w (S k)) = - (Mod w (S k) / 2) /\ sval w (IMAX w (S k)) = Mod w (S k) / 2 - 1.
+Proof.
+  intros Hw. repeat split.
+  - apply UMAX_uval; lia.
+  - apply ZERO_uval.
+  - apply IMIN_sval; exact Hw.
+  - apply IMAX_sval; exact Hw.
+Qed.
+Print Assumptions C16_MAX_MIN_values.
+
+Theorem C16_BITS_BYTES w n : BITS w n = Z.of_nat n * w /\ BYTES w n = BITS w n / 8.
+Proof. exact (conj (BITS_ok w n) (BYTES_ok w n)). Qed.
+Print Assumptions C16_BITS_BYTES.
+
+(* U128..U8192 / I128..I8192 are named after their widths, and the digit count bits / 64 of the
+   alias definition gives back exactly that width *)
+Theorem C16_aliases : aliases_ok = true /\
+  forall bits u i, In (bits, u, i) aliases -> alias_bits bits = Some (bits, bits).
+Proof. exact (conj aliases_ok_true alias_bits_ok). Qed.
+Print Assumptions C16_aliases.
+
+Theorem C16_instantiations : instantiations_ok = true.
+Proof. exact instantiations_ok_true. Qed.
+Print Assumptions C16_instantiations.
+
+(* non-vacuity *)
+Example C16_ex_same_value : uval 8 [0x34; 0x12] = uval 16 [0x1234] /\ bits 8 2 = bits 16 1 /\
+  wf 8 2 [0x34; 0x12] /\ wf 16 1 [0x1234].
+Proof. repeat split; try reflexivity; repeat constructor; unfold digit_ok, B; cbn; lia. Qed.
+Example C16_ex_consts : U_named_const 3 "TEN"%string = Some [10; 0; 0] /\
+  I_named_const 8 3 "NEG_TEN"%string = Some [246; 255; 255] /\ alias_bits 4096 = Some (4096, 4096).
+Proof. vm_compute. repeat split. Qed.
